@@ -37,8 +37,10 @@ def configs(tier):
     for role in ("server", "client"):
         for fbd in (False, True):
             for echo in (False, True):
-                for cht in (1, 2.5):
+                for cht in (1, 2.5, 0):
                     for sdt in ((1, 0) if role == "client" else (1,)):
+                        if cht == 0 and sdt == 0:
+                            continue
                         for start in ("open", "connecting"):
                             c = {"role": role, "failByDrop": fbd, "echo": echo, "cht": cht,
                                  "sdt": sdt, "start": start}
@@ -50,6 +52,8 @@ def configs(tier):
         if c["start"] == "connecting" and (c["echo"] or c["cht"] != 1 or c["sdt"] != 1):
             continue
         if c["cht"] == 2.5 and (c["echo"] or c["failByDrop"]):
+            continue
+        if c["cht"] == 0 and (c["echo"] or c["failByDrop"] or c["start"] != "open"):
             continue
         if c["sdt"] == 0 and (c["echo"] or c["failByDrop"] or c["cht"] != 1):
             continue
@@ -144,11 +148,11 @@ class Sys:
             # made from callbacks that were queued earlier.
             ev.append("settle")
             if p.state in (S_OPEN, S_CLOSING, S_CLOSED) and self.hs_done_len:
-                ev += ["sendClose", "sendClose3000r", "sendMessage", "sendPing"]
+                ev += ["sendClose", "sendClose3000r", "sendMessage", "sendMessageSync", "sendPing"]
             return ev
         if p.state in (S_OPEN, S_CLOSING, S_CLOSED) and self.hs_done_len:
             ev += ["sendClose", "sendClose1000", "sendClose3000r", "sendCloseLong", "sendMessage",
-                   "sendPing"]
+                   "sendMessageSync", "sendPing"]
         if reading:
             if p.state == S_CONNECTING and not self.hs_done_len:
                 ev += ["peer:handshake", "peer:garbage-handshake"]
@@ -207,9 +211,14 @@ class Sys:
                     p.sendClose(3000, "r")
                 else:
                     p.sendClose(4999, LONG_REASON)
-            elif ev == "sendMessage":
+            elif ev in ("sendMessage", "sendMessageSync"):
                 try:
-                    p.sendMessage(b"x", True)
+                    if ev == "sendMessageSync":
+                        # queued write: goes out on a later reactor turn (a timer of the owned clock)
+                        p.sendMessage(b"q", True, sync=True)
+                        self.notes.add("queued_write")
+                    else:
+                        p.sendMessage(b"x", True)
                 except Exception as e:
                     if type(e).__name__ != "Disconnected":
                         raise
@@ -449,6 +458,10 @@ def bounded_time(cfg, history):
             and not s.conn.own_drop_pending():
         # serverConnectionDropTimeout=0 disables the drop timer by configuration: a client that
         # has the peer's close frame legitimately waits for the server without bound
+        return [], s
+    if cfg["cht"] == 0 and not s.peer_close_any and not s.conn.lost and not s.conn.own_drop_pending():
+        # closeHandshakeTimeout=0 disables that timer by configuration: an endpoint that has sent
+        # its close frame legitimately waits for the peer's without bound
         return [], s
     budget = cfg["cht"] + (cfg["sdt"] if cfg["role"] == "client" else 0) + 1.0
     if not s.conn.lost and not s.conn.own_drop_pending():
